@@ -52,7 +52,7 @@ Proof.
   destruct (get_node_ok _ _ _ _ E) as [-> Hn].
   destruct (n_valid a) eqn:Hv; cbn [negb] in H.
   2:{ unfold ret in H. simplify_eq. eapply invalid_mono; [exact ACC|]. exists a. done. }
-  do 6 mstep H ACC.
+  do 5 mstep H ACC.
   (* the BindMain case: the nodes created on the right-hand side *)
   apply bindM_ok in H as (a6 & s6 & H6 & H).
   assert (Rmono s s6) as ACC6.
@@ -126,8 +126,8 @@ Proof.
   (* the prologue does not touch the binds, nor the kind/validity of n *)
   apply bindM_ok in H as ([] & s1 & E1 & H). unfold emit, modify in E1. injection E1 as <-.
   apply bindM_ok in H as ([] & s2 & E2 & H). unfold modify in E2. injection E2 as <-.
-  apply bindM_ok in H as (st & s3 & E3 & H). unfold gets in E3. injection E3 as <- <-.
-  apply bindM_ok in H as ([] & s4 & E4 & H). unfold upd_node, modify in E4. injection E4 as <-.
+  apply bindM_ok in H as ([] & s4 & E4 & H). unfold stamp_node, modify in E4. injection E4 as <-.
+  unfold recompute_body in H.
   apply bindM_ok in H as (x4 & s5 & E5 & H). apply get_node_ok in E5 as [-> Hx4].
   assert (node_kind x4 = Some (KBindLhs b)) as Hk4.
   { simpl in Hx4. rewrite list_lookup_alter, Hn in Hx4. simpl in Hx4. injection Hx4 as <-. exact Hk. }
@@ -163,7 +163,7 @@ Lemma recompute_one_invalid fuel n s x : nodes s !! n = Some x -> n_valid x = fa
 Proof.
   intros Hn Hv. unfold recompute_one.
   erewrite bindM_eq by reflexivity. erewrite bindM_eq by reflexivity.
-  erewrite bindM_eq by reflexivity. erewrite bindM_eq by reflexivity.
+  erewrite bindM_eq by reflexivity. unfold recompute_body.
   erewrite bindM_eq.
   2:{ apply get_node_eq. simpl. rewrite list_lookup_alter, Hn. reflexivity. }
   unfold node_kind. simpl. rewrite Hv. done.
